@@ -418,6 +418,27 @@ func jobC19(c *rt.Ctx) {
 		if valueOf(&s).Cmp(w.Mod(w, L)) != 0 {
 			c.Violation("C19 Mul-inplace", "Mul(&s, &s, &o) wrong", map[string]interface{}{"a": As[i].String()})
 		}
+		// out aliasing the SECOND operand, and both operands the same variable
+		s = lim[i]
+		o2 := lim[(i*17+3)%len(As)]
+		Mul(&s, &o2, &s)
+		w = new(big.Int).Mul(As[i], As[(i*17+3)%len(As)])
+		if valueOf(&s).Cmp(w.Mod(w, L)) != 0 {
+			c.Violation("C19 Mul-inplace", "Mul(&s, &o, &s) wrong", map[string]interface{}{"a": As[i].String()})
+		}
+		s = lim[i]
+		Add(&s, &o2, &s)
+		w = new(big.Int).Add(As[i], As[(i*17+3)%len(As)])
+		if valueOf(&s).Cmp(w.Mod(w, L)) != 0 {
+			c.Violation("C19 Add-inplace", "Add(&s, &o, &s) wrong", map[string]interface{}{"a": As[i].String()})
+		}
+		var sq Bignum256
+		s = lim[i]
+		Mul(&sq, &s, &s)
+		w = new(big.Int).Mul(As[i], As[i])
+		if valueOf(&sq).Cmp(w.Mod(w, L)) != 0 {
+			c.Violation("C19 Mul-inplace", "Mul(&r, &s, &s) wrong", map[string]interface{}{"a": As[i].String()})
+		}
 		s = lim[i]
 		Add(&s, &s, &s)
 		w = new(big.Int).Lsh(As[i], 1)
